@@ -98,13 +98,13 @@ def tlsProg {R S : Type} (P : TlsParams R S) (s : Seg) :
   if s.payload.isEmpty then .ret none else
   .get key fun active =>                       -- contains_key
     if !(active.isSome || P.isTls s.payload) then .ret none else
+    -- `reader.add_bytes` mutates the reader in place; on success or error the flow is removed right
+    -- after, so the table ends up as after a plain `remove` (the transient write is not modelled)
     let withReader (r : R) : Prog FlowKey R Unit Unit (Option S) :=
-      let (r', res) := P.addBytes r s.payload
-      .set key r' <|
-        match res with
-        | .sig x => .remove key (.ret (some x))
-        | .pending => .ret none
-        | .err => .remove key (.ret none)
+      match P.addBytes r s.payload with
+      | (_, .sig x) => .remove key (.ret (some x))
+      | (r', .pending) => .set key r' (.ret none)
+      | (_, .err) => .remove key (.ret none)
     .get key fun r =>                          -- get_mut
       match r with
       | some r => withReader r
@@ -151,6 +151,7 @@ structure HttpParams (γ Q P : Type) where
   parseReq : γ → Bytes → γ × Option Q
   parseResp : γ → Bytes → γ × Option P
   ttlMs : Nat := 60000
+  maxHead : Nat := 64 * 1024      -- MAX_BUFFERED_HEAD_BYTES
 
 structure HttpOut (Q P : Type) where
   req : Option Q := none
@@ -204,27 +205,38 @@ def httpWithFlow {γ Q P : Type} (H : HttpParams γ Q P) (stored : FlowKey) (isC
   if isClient && s.src = f.client then
     if !f.clientParsed then
       let f1 := { f with clientData := f.clientData ++ [d] }
-      .set stored f1 <|
-        httpTryReq H (fullData f1.clientData) fun q =>
-          match q with
-          | some q =>
-            let f2 := { f1 with clientParsed := true }
-            .set stored f2 (httpFinish stored f2 s { req := some q })
-          | none => httpFinish stored f1 s {}
+      let full := fullData f1.clientData
+      if full.length > H.maxHead then
+        -- no head within the limit: the direction is abandoned
+        let f2 := { f1 with clientData := [], clientParsed := true }
+        .set stored f2 (httpFinish stored f2 s {})
+      else
+        .set stored f1 <|
+          httpTryReq H full fun q =>
+            match q with
+            | some q =>
+              let f2 := { f1 with clientParsed := true }
+              .set stored f2 (httpFinish stored f2 s { req := some q })
+            | none => httpFinish stored f1 s {}
     else httpFinish stored f s {}
   else if s.src = f.server then
     if !f.serverParsed then
       let f1 := { f with serverData := f.serverData ++ [d] }
-      .set stored f1 <|
-        -- `get_full_data(is_client)`: the code passes `is_client` (false here unless the lookup
-        -- by the packet's own key hit, in which case the client branch was taken above or the
-        -- source differs from the stored client)
-        httpTryResp H (fullData (if isClient then f1.clientData else f1.serverData)) fun r =>
-          match r with
-          | some r =>
-            let f2 := { f1 with serverParsed := true }
-            .set stored f2 (httpFinish stored f2 s { resp := some r })
-          | none => httpFinish stored f1 s {}
+      -- `get_full_data(is_client)`: the code passes `is_client` (false here unless the lookup by the
+      -- packet's own key hit, in which case the client branch was taken above or the source differs
+      -- from the stored client)
+      let full := fullData (if isClient then f1.clientData else f1.serverData)
+      if full.length > H.maxHead then
+        let f2 := { f1 with serverData := [], serverParsed := true }
+        .set stored f2 (httpFinish stored f2 s {})
+      else
+        .set stored f1 <|
+          httpTryResp H full fun r =>
+            match r with
+            | some r =>
+              let f2 := { f1 with serverParsed := true }
+              .set stored f2 (httpFinish stored f2 s { resp := some r })
+            | none => httpFinish stored f1 s {}
     else httpFinish stored f s {}
   else httpFinish stored f s {}
 
